@@ -65,7 +65,7 @@ type Outcome struct {
 }
 
 func (o *Outcome) Diff(p *Outcome) string {
-	if o.Panic != p.Panic {
+	if firstLine(o.Panic) != firstLine(p.Panic) {
 		return fmt.Sprintf("panic: %q vs %q", firstLine(o.Panic), firstLine(p.Panic))
 	}
 	if o.Err != p.Err {
@@ -349,12 +349,25 @@ func (w *World) doStart(t *Task) {
 	call.ResumeType = trig2.Type()
 	call.InputJSON = tj
 	call.InputAt = trig2.TriggeredOn()
+	call.hostCarried = true
 	w.armServices(call)
 	w.Seams.ResetLogs()
 	if w.rec != nil {
 		w.rec.take()
 	}
 
+	call.pre = &preCall{snap: w.Seams.Snapshot(), transient: w.Store.TransientErr, exec: func(eng flows.Engine) error {
+		sa2, err := w.freshSA(sa)
+		if err != nil {
+			return err
+		}
+		t2, err := triggers.ReadTrigger(sa2, tj, assets.IgnoreMissing)
+		if err != nil {
+			return err
+		}
+		_, _, err = eng.NewSession(sa2, t2)
+		return err
+	}}
 	var s flows.Session
 	var sp flows.Sprint
 	var cerr error
@@ -523,11 +536,13 @@ func (w *World) doResume(c *ContactState, rec *SessionRec, spec *ResumeSpec) {
 	call.InputAt = r.ResumedOn()
 	call.Before = before
 	call.Restored = restored
+	call.hostCarried = spec.Carry
 	w.armServices(call)
 	w.Seams.ResetLogs()
 	if w.rec != nil {
 		w.rec.take()
 	}
+	call.pre = w.resumePre(sa, before, rj)
 	var sp flows.Sprint
 	var cerr error
 	pmsg := guarded(func() { sp, cerr = s.Resume(r) })
@@ -535,6 +550,26 @@ func (w *World) doResume(c *ContactState, rec *SessionRec, spec *ResumeSpec) {
 	w.finishCall(call, s, sp, cerr, pmsg, o)
 	rec.Live, rec.LiveSA = s, sa
 	w.commit(c, rec, call, o)
+}
+
+// resumePre captures what is needed to re-execute a resume from the same pre-state.
+func (w *World) resumePre(sa *SA, before, rj []byte) *preCall {
+	return &preCall{snap: w.Seams.Snapshot(), transient: w.Store.TransientErr, exec: func(eng flows.Engine) error {
+		sa2, err := w.freshSA(sa)
+		if err != nil {
+			return err
+		}
+		s2, err := eng.ReadSession(sa2, before, assets.IgnoreMissing)
+		if err != nil {
+			return err
+		}
+		r2, err := resumes.ReadResume(sa2, rj, assets.IgnoreMissing)
+		if err != nil {
+			return err
+		}
+		_, err = s2.Resume(r2)
+		return err
+	}}
 }
 
 func panicSite(p string) string {
